@@ -438,9 +438,15 @@ def r10_5(chk, tier):
                 n += 1
                 chk.analysed(fn)
                 ok = False
+                tests = []
                 for cond_ast, label, edge in (g.guards(nd) if nd else []):
+                    tests.append((cond_ast, label, edge, {}))
+                    # the same test made inside a bool helper whose outcome the caller branches on (`if (!read_count(length, ec)) return;`)
+                    for callee2, g2, c2, lab2, e2, names in G.implied_by_call(facts, fn, cond_ast, label):
+                        tests.append((c2, lab2, e2, names))
+                for cond_ast, label, edge, names in tests:
                     cmp_ = G.comparison(cond_ast)
-                    if cmp_ and A.ref_name(cmp_[1]) == lv and A.ref_name(cmp_[2]) == 'max_items_' and cmp_[0] == '>' and label is False:
+                    if cmp_ and names.get(A.ref_name(cmp_[1]), A.ref_name(cmp_[1])) == lv and A.ref_name(cmp_[2]) == 'max_items_' and cmp_[0] == '>' and label is False:
                         rej = [e for e in edge.src.succ if e.label is True]
                         if rej and any(x.kind == 'stmt' and G.assigns_enumerator(x.ast, {'ec'}, 'max_items_exceeded') for x in G.block_after(rej[0])): ok = True
                 site = U.site(fn, 'counted push %s(%s)' % (mode, lv))
